@@ -69,6 +69,13 @@ type _refElem struct {
 	index int
 }
 
+// a struct and its first field (or an array and its first element) share an address:
+// an object is identified by its address together with its type
+type _refKey struct {
+	addr unsafe.Pointer
+	typ  reflect.Type
+}
+
 func refTag(tag byte) bool {
 	return tag == _refStartTag
 }
@@ -86,6 +93,7 @@ func (e *Encoder) checkEncodeRefMap(v reflect.Value) (int, bool) {
 	var (
 		kind reflect.Kind
 		addr unsafe.Pointer
+		typ  reflect.Type
 	)
 
 	if v.Kind() == reflect.Ptr {
@@ -93,6 +101,7 @@ func (e *Encoder) checkEncodeRefMap(v reflect.Value) (int, bool) {
 			v = v.Elem()
 		}
 		kind = v.Elem().Kind()
+		typ = v.Type().Elem()
 		if kind == reflect.Slice || kind == reflect.Map {
 			addr = unsafe.Pointer(v.Elem().Pointer())
 		} else {
@@ -100,6 +109,7 @@ func (e *Encoder) checkEncodeRefMap(v reflect.Value) (int, bool) {
 		}
 	} else {
 		kind = v.Kind()
+		typ = v.Type()
 		switch kind {
 		case reflect.Slice, reflect.Map:
 			addr = unsafe.Pointer(v.Pointer())
@@ -115,7 +125,7 @@ func (e *Encoder) checkEncodeRefMap(v reflect.Value) (int, bool) {
 		identity = false
 	}
 
-	if elem, ok := e.refMap[addr]; ok && identity {
+	if elem, ok := e.refMap[_refKey{addr, typ}]; ok && identity {
 		// the array addr is equal to the first elem, which must ignore
 		if elem.kind == kind {
 			// fmt.Printf("-----> find ref: %d, %p, %v, %v\n", elem.index, addr, kind, v)
@@ -131,7 +141,7 @@ func (e *Encoder) checkEncodeRefMap(v reflect.Value) (int, bool) {
 	if !identity {
 		return 0, false
 	}
-	e.refMap[addr] = _refElem{kind, n}
+	e.refMap[_refKey{addr, typ}] = _refElem{kind, n}
 	// fmt.Printf("---> add ref: %d, %p, %v, %v\n", n, addr, kind, v)
 	return 0, false
 }
